@@ -603,7 +603,7 @@ class Node:
                 deep = True
             topnodes = child._root.children
             if isinstance(before, (int, Node)) or before is True:
-                topnodes.reverse()
+                topnodes = topnodes[::-1]
             for n in topnodes:
                 self.add_child(n, before=before, deep=deep)
             return n  # need to return a node
